@@ -8,6 +8,7 @@ The theorems are in the real-number reading and are about the SAME functions the
 import Geodesy.Model.Registry
 import Geodesy.Lemmas.Real
 import Mathlib.Tactic.Linarith
+import Geodesy.Lemmas.Mercator
 
 namespace Geodesy
 namespace C13
@@ -157,6 +158,22 @@ theorem merc_lat_ts_is_k0 (p : Parsed ℝ) (ts lon lat : ℝ) :
   rw [key_k0, key_x0, key_y0, key_lat0, key_lon0]
   simp only [o (S "k_0") _ (by decide), o (S "x_0") _ (by decide), o (S "y_0") _ (by decide),
     o (S "lat_0") _ (by decide), o (S "lon_0") _ (by decide), ellps_setReal]
+
+open Mercator in
+/-- **merc on a sphere equals webmerc on the same sphere** (no false origin, unit scale, centre at
+the origin of longitudes and on the equator), for every point strictly between the poles -/
+theorem merc_on_sphere_is_webmerc (p : Parsed ℝ) (lon phi : ℝ) (hf : (p.ellps 0).f = 0)
+    (hk : Parsed.k p 0 = 1) (hx : Parsed.x p 0 = 0) (hy : Parsed.y p 0 = 0) (hlon : Parsed.lon p 0 = 0)
+    (hlat : Parsed.lat p 0 = 0) (h1 : -(Real.pi / 2) < phi) (h2 : phi < Real.pi / 2) :
+    Merc.fwd p lon phi = Webmerc.fwd p lon phi := by
+  have two : (@OfScientific.ofScientific ℝ Scalar.instOfScientific 20 true 1) = 2 := by
+    simp [OfScientific.ofScientific, Scalar.ofSci, Lit.toReal]; norm_num
+  have four : (@OfScientific.ofScientific ℝ Scalar.instOfScientific 40 true 1) = 4 := by
+    simp [OfScientific.ofScientific, Scalar.ofSci, Lit.toReal]; norm_num
+  have he : (p.ellps 0).eccentricity = 0 := by
+    simp [Ellipsoid.eccentricity, Ellipsoid.eccentricitySquared, hf]
+  simp only [Merc.fwd, Webmerc.fwd, isometric_eq, he, hk, hx, hy, hlon, hlat, Webmerc.fracPi4, two, four]
+  simp [arsinh_tan_eq phi h1 h2]
 
 /-! ### lcc -/
 
